@@ -52,7 +52,7 @@ def builder_obligations(chk, P, rule, fs=False):
     embed.items[sp.key()] = (sp, W.param("F_Xx"))
     dens.items[sp.key()] = (sp, W.param("rho_Xx"))
     pot = W.run_method(I, b, "_create_eam_potential", [sp, embed, dens])
-    site = ci.lookup("_create_eam_potential").site()
+    site = ci.site_of("_create_eam_potential")
     if not (isinstance(pot, InstV) and pot.ci.name == "EAMPotential"):
         raise AnalysisError("_create_eam_potential did not build an EAMPotential: %r" % (pot,))
 
